@@ -19,6 +19,8 @@ mod util;
 use std::path::PathBuf;
 
 pub struct Opts {
+    pub mini: bool,
+    pub keep_every: u64,
     pub plan: String,
     pub as_prop: String,
     pub out: PathBuf,
@@ -42,7 +44,7 @@ fn main() {
         eprintln!("usage: yvx-conform gen <PROP> --out <dir> [--shards N] [--tier quick|thorough] [--seed S]");
         std::process::exit(2);
     }
-    let mut o = Opts { plan: String::new(), as_prop: String::new(), out: PathBuf::from("."), shards: 1, thorough: false, seed: 1 };
+    let mut o = Opts { mini: false, keep_every: 1, plan: String::new(), as_prop: String::new(), out: PathBuf::from("."), shards: 1, thorough: false, seed: 1 };
     let mut pos: Vec<String> = Vec::new();
     let mut i = 2;
     while i < args.len() {
@@ -57,6 +59,11 @@ fn main() {
             }
             "--tier" => {
                 o.thorough = args[i + 1] == "thorough";
+                o.mini = args[i + 1] == "mini";
+                i += 1;
+            }
+            "--keep-every" => {
+                o.keep_every = args[i + 1].parse().expect("keep-every");
                 i += 1;
             }
             "--as" => {
@@ -83,6 +90,7 @@ fn main() {
             if !o.as_prop.is_empty() {
                 sh.set_prop(&o.as_prop);
             }
+            sh.set_keep_every(o.keep_every);
             let stats = match prop.as_str() {
                 "C01" => gen_yuv::gen_c01(&mut sh, &o),
                 "C02" => gen_yuv::gen_c02(&mut sh, &o),
